@@ -133,7 +133,9 @@ MoveMonths(s, k, eom) ==
                      td  == IF eom THEN len ELSE Min2(ymd[3], len)
                  IN \* clipping into February 1900 would meet Excel's 29 Feb 1900
                     IF mi = 1900 * 12 + 1 /\ (eom \/ ymd[3] > 28) THEN Open
-                    ELSE SerialFrom(SerialDayNo(s), MonthStart(mi) + td - 1)
+                    \* the target is a calendar date (year, month, day <= length of the month): its serial is fixed by the
+                    \* date system whichever side of the fictitious leap day the start lies on (EDATE(1,12) = 367 = 1901-01-01)
+                    ELSE LET s2 == DayNoSerial(MonthStart(mi) + td - 1) IN IF DetSerial(s2) THEN Date(s2) ELSE Open
 
 \* complete months from day a to day b (a <= b): a month is complete when the
 \* start's day of month is reached again - the end of a shorter month does NOT
